@@ -90,9 +90,10 @@ PLANS = {
         ("rep depth2", [e2.Doc(b, st, "canon") for b in e2.BODIES for st in REP_STACKS[:4]], e2.ops(values=["9", "{ k = 1; }", "u", ""]), 2, e2.ops(e2.SMALL_PATHS, e2.SMALL_VALUES)),
     ],
     "thorough": lambda prop: [
-        ("stack<=3 depth1", e2.docs(3, layouts=("canon",)) + e2.docs(2, layouts=("oneline",)), e2.ops(), 1, None),
-        ("stack<=1 depth2 full", e2.docs(1), e2.ops(), 2, e2.ops()),
-        ("rep depth3", [e2.Doc(b, st, "canon") for b in e2.BODIES for st in REP_STACKS], e2.ops(), 3, e2.ops(e2.SMALL_PATHS, e2.SMALL_VALUES)),
+        ("stack<=2 depth1 all-ops", e2.docs(2), e2.ops(), 1, None),
+        ("stack=3 depth1 canon", [d for d in e2.docs(3, bodies=["inline", "attrpath", "empty", "nested"], wrappers=["lamf", "let1", "let2", "with", "assert", "paren", "call"], layouts=("canon",)) if len(d.stack) == 3], e2.ops(values=["9", "{ k = 1; }", "u", ""]), 1, None),
+        ("stack<=1 depth2", e2.docs(1, layouts=("canon",)), e2.ops(), 2, e2.ops(values=["9", "{ k = 1; }", "u", ""])),
+        ("rep depth3", [e2.Doc(b, st, "canon") for b in e2.BODIES for st in REP_STACKS], e2.ops(values=["9", "{ k = 1; }", "u", ""]), 3, e2.ops(e2.SMALL_PATHS, e2.SMALL_VALUES)),
     ],
 }
 C09_PLANS = {
@@ -257,7 +258,11 @@ def work(unit):
                     else:
                         ent[0] += 1
             if outcome[0] == "ok" and key_after is not None:
-                if obs.attr_tree(outcome[1]).status in ("invalid", "dup"):
+                if found:
+                    # a state reached through a transition that already violates the property is reported,
+                    # not expanded (its descendants would only repeat the same defect in other words)
+                    counters["violating_successor_states_not_expanded"] += 1
+                elif obs.attr_tree(outcome[1]).status in ("invalid", "dup"):
                     counters["broken_successor_states_not_expanded"] += 1
                 elif key_after in states:
                     counters["merged"] += 1
